@@ -182,6 +182,7 @@ def wl_counting(ctx, rng, case):
         reload = lambda o: cls.frombytes(bytes(o), **extra, **bl.kw_hash(hf))
     out = Counter()
     removes = 0
+    eaten = 0  # counting Bloom only: amount taken out by requests larger than what the filter held for the key
     for step in range(rng.randint(3, 30)):
         r = rng.random()
         kk = rng.choice(keys)
@@ -190,8 +191,22 @@ def wl_counting(ctx, rng, case):
             f.add(kk, n)
             out[kk] += n
             case.op("add", kk, n)
+        elif r < 0.85 and kind == "CountingBloomFilter" and (eaten or rng.random() < 0.25):
+            # a removal that asks for MORE than the filter holds for the key takes out what it holds (the amount actually
+            # removed is what is subtracted); only keys whose positions are all distinct, so no counter can go below zero
+            cells = bl.cells_of(f)
+            pos = [h % f.number_bits for h in f.hashes(kk)]
+            held = min(cells[i] for i in pos)
+            if len(set(pos)) != len(pos) or held == 0:
+                continue
+            n = held + rng.randint(0, 3) if rng.random() < 0.7 else rng.randint(1, held)
+            f.remove(kk, n)
+            eaten += min(n, held)
+            removes += 1
+            case.op("remove_up_to_held", kk, n, held)
+            ctx.count("counting_removals_requesting_more_than_held" if n > held else "counting_removals_by_held_amount")
         elif r < 0.85:
-            if out[kk] <= 0:
+            if out[kk] <= 0 or eaten:
                 continue
             n = rng.randint(1, out[kk])
             f.remove(kk, n)
@@ -212,7 +227,7 @@ def wl_counting(ctx, rng, case):
             ctx.count("joins")
         else:
             continue
-        total = sum(out.values())
+        total = sum(out.values()) - eaten
         ctx.check(f.elements_added == total, f"elements_added is not the net sum of added minus removed amounts after step {step} ({case.ops[-1][0]})",
                   got=f.elements_added, want=total)
         ctx.count("counter_checks")
